@@ -5,6 +5,7 @@ specs/Params.tla    : builder state machine (setters = last write wins, check_re
 specs/Gen_Params.tla: TLC enumerates programs over the boundary grid of every parameter
 specs/Trace_Params.tla: TLC validates what the real builders did
 """
+import os, subprocess, sys
 import vlib
 
 ALGS = ["kmeans", "kmeans32", "dbscan", "dbscan32", "optics", "gmm", "enet", "mtenet", "logistic", "mlogistic", "tweedie", "svc", "svr", "tree", "tree32",
@@ -53,8 +54,67 @@ def random_programs(ctx, cases, count):
     return out
 
 
+def build_files_helper(ctx):
+    """compile harness/src/c04_files.rs with rustc against the rlibs cargo built for the tree under test
+    (the shared harness package has no direct dependency on `encoding`, which `fit_files` needs)"""
+    hd = vlib.harness_dir()
+    env = dict(os.environ)
+    env["CARGO_NET_OFFLINE"] = "true"
+    pr = subprocess.run(["cargo", "build", "--release", "--offline", "--bin", "c04", "--message-format=json"],
+                        cwd=hd, env=env, stdout=subprocess.PIPE, stderr=subprocess.DEVNULL, text=True)
+    if pr.returncode != 0:
+        raise vlib.ToolError("cargo (artifact list) failed")
+    want = {"encoding": None, "linfa": None, "linfa_preprocessing": None, "vh": None}
+    for line in pr.stdout.splitlines():
+        try:
+            d = vlib.json.loads(line)
+        except Exception:
+            continue
+        if d.get("reason") == "compiler-artifact" and "lib" in d["target"]["kind"]:
+            nm = d["target"]["name"].replace("-", "_")
+            if nm in want:
+                rl = [f for f in d["filenames"] if f.endswith(".rlib")]
+                if rl:
+                    want[nm] = rl[0]
+    if not all(want.values()):
+        raise vlib.ToolError("rlib not found for %s" % [k for k, v in want.items() if not v])
+    deps = os.path.dirname(want["vh"])
+    outp = os.path.join(ctx.work, "c04_files")
+    cmd = ["rustc", "--edition", "2021", "-C", "opt-level=1", "--cap-lints", "allow", "-L", "dependency=" + deps]
+    for k, v in sorted(want.items()):
+        cmd += ["--extern", "%s=%s" % (k, v)]
+    cmd += [os.path.join(hd, "src", "c04_files.rs"), "-o", outp]
+    pr = subprocess.run(cmd, stdout=subprocess.PIPE, stderr=subprocess.STDOUT, text=True)
+    if pr.returncode != 0:
+        sys.stderr.write(pr.stdout[-3000:])
+        raise vlib.ToolError("rustc c04_files failed")
+    return outp
+
+
+def add_file_forms(ctx, helper, cases, traces, tag="files"):
+    """run the fit_files helper on the count-vectoriser cases and splice its call events into their traces"""
+    cv = [c for c in cases if c["kind"] == "countvec"]
+    if not cv:
+        return
+    inp = os.path.join(ctx.work, tag + ".ndjson")
+    outp = os.path.join(ctx.work, tag + ".out.ndjson")
+    vlib.write_ndjson(inp, cv)
+    pr = subprocess.run(["timeout", "600", helper, inp, outp, os.path.join(ctx.work, tag + "-docs")],
+                        stdout=subprocess.PIPE, stderr=subprocess.PIPE, text=True)
+    if pr.returncode != 0:
+        sys.stderr.write(pr.stderr[-2000:])
+        raise vlib.ToolError("c04_files rc=%d" % pr.returncode)
+    extra = {o["id"]: o["ev"] for o in vlib.read_ndjson(outp)}
+    if len(extra) != len(cv):
+        raise vlib.ToolError("c04_files returned %d results for %d cases" % (len(extra), len(cv)))
+    for t in traces:
+        if t["kind"] == "countvec" and t["ev"] and t["ev"][-1].get("ev") == "done":
+            t["ev"] = t["ev"][:-1] + extra[t["id"]] + t["ev"][-1:]
+
+
 def run(ctx):
     binp = vlib.cargo_build("c04")
+    helper = build_files_helper(ctx)
     for consts in MODEL[ctx.tier]:
         # the three HEAVY builders have no constructor argument, so `New` cannot occur in their run
         acts = [a for a in ACTIONS if a != "New"] if consts["AlgSet"] == vlib.tla_set(HEAVY) else ACTIONS
@@ -68,6 +128,7 @@ def run(ctx):
     ctx.cases = len(cases)
     ctx.nontrivial = len({vlib.json.dumps(c["inp"], sort_keys=True) for c in cases if nontrivial(c)})
     traces = vlib.run_harness(ctx, binp, cases)
+    add_file_forms(ctx, helper, cases, traces)
     pick = [t for t in traces if t["kind"] == "svr" and len(t["inp"]["prog"]) == 2][:1] + \
            [t for t in traces if t["kind"] == "countvec" and len(t["inp"]["prog"]) == 1][:1]
     vlib.sample(ctx, pick)
@@ -89,7 +150,10 @@ def run(ctx):
 
 def replay(ctx, case):
     binp = vlib.cargo_build("c04")
+    helper = build_files_helper(ctx)
+    case = {k: v for k, v in case.items() if k != "ev"}
     traces = vlib.run_harness(ctx, binp, [case])
+    add_file_forms(ctx, helper, [case], traces)
     ctx.cases = 1
     vlib.validate_with_findings(ctx, "Trace_Params", traces, constants=TRACE_CONST)
     return vlib.finish(ctx)
